@@ -1023,19 +1023,20 @@ def run(tier):
         _, name, fl, _b = c["enums"][0]
         spec = specs[name]
         # determinism + packing independence: the minimal enum alone, in a module of its own, must fail the same way
-        solo = Batch(0, [("E0", spec)], os.path.join(wd, "confirm-" + sha(key)))
+        # (the enum keeps its name: whether it carries the JS constructor method is a function of the name)
+        solo = Batch(0, [(name, spec)], os.path.join(wd, "confirm-" + sha(key)))
         process_batch(solo, keep=True, backends={"cpp", "nanobind"} if c["backend"] == "nanobind" else {c["backend"]})
-        sf = failures_of(solo).get((c["backend"], c["direction"]), {}).get("E0")
+        sf = failures_of(solo).get((c["backend"], c["direction"]), {}).get(name)
         if sf != fl:
             raise MachineryError("failure of %s for %s not reproduced identically when run alone: packed=%s alone=%s" % (
                 enum_text(name, spec), key, json.dumps(fl)[:600], json.dumps(sf)[:600]))
         witness = {
-            "enum": enum_text("E0", spec), "spec": list(spec), "rustc_values": solo.rust["E0"], "backend": c["backend"],
+            "enum": enum_text(name, spec), "spec": list(spec), "rustc_values": solo.rust[name], "backend": c["backend"],
             "direction": c["direction"], "shape_class": shape_class(spec), "failing": sf,
-            "input_file": bridge_text([("E0", spec)]),
+            "input_file": bridge_text([(name, spec)]),
             "command": "diplomat-tool %s <out> --entry lib.rs -s %s" % (c["backend"], " ".join("--config " + x for x in default_configs(c["backend"]))),
-            "generated": snippet(c["backend"], "E0", solo.dir),
-            "failing_enums_in_class": len(c["enums"]),
+            "generated": snippet(c["backend"], name, solo.dir),
+            "name": name, "failing_enums_in_class": len(c["enums"]),
             "more_examples": [enum_text(n, specs[n]) for _, n, _, _ in c["enums"][1:6]],
         }
         f0 = sf[0]
@@ -1133,13 +1134,14 @@ def replay(path):
     w = json.load(open(path))
     wit = w["witness"]
     spec = tuple(None if s is None else int(s) for s in wit["spec"])
-    print("replaying %s on %s" % (w["key"], enum_text("E0", spec)))
+    ename = wit.get("name", "E0")
+    print("replaying %s on %s" % (w["key"], enum_text(ename, spec)))
     build_tool()
     wd = workdir("C11")
-    b = Batch(0, [("E0", spec)], os.path.join(wd, "replay"))
+    b = Batch(0, [(ename, spec)], os.path.join(wd, "replay"))
     process_batch(b, keep=True)
     fl = failures_of(b)
-    print("rustc: %s" % b.rust["E0"])
+    print("rustc: %s" % b.rust[ename])
     bad = False
     for (be, direction), m in sorted(fl.items()):
         for name, lst in m.items():
